@@ -331,11 +331,14 @@ def model_spa_class():
                         out.append((state.pos, after[state.pos:state.pos + state.length]))
             return out
 
+        # keypad code -> state item of the device it toggles (the model's own table)
+        KEY_TO_STATE = {1: "P1", 2: "P2", 3: "P3", 4: "P4", 5: "P5", 6: "BL", 16: "UdLi", 23: "Waterfall"}
+
         def apply_key(self, key) -> None:
             acc = self.structure.accessors
-            for dev, props in GeckoConstants.DEVICES.items():
-                if props[1] == key and props[2] in acc:
-                    a = acc[props[2]]
+            for code, tag in self.KEY_TO_STATE.items():
+                if code == key and tag in acc:
+                    a = acc[tag]
                     before = self.structure.status_block
                     try:
                         self._send_structure_change = False
@@ -359,6 +362,17 @@ def model_spa_class():
 
         # -- unsolicited traffic ---------------------------------------------------------------------------
         def emit_statp(self, changes, clients=None) -> None:
+            if len(changes) > 1 and any(len(d) != 2 for _, d in changes):
+                # the protocol's records are position + word; only a lone change may be the simulator's 1-byte form
+                blk = self.structure.status_block
+                norm = []
+                for pos, d in changes:
+                    if len(d) == 2:
+                        norm.append((pos, d))
+                    else:
+                        p0 = pos if pos + 2 <= len(blk) else pos - 1
+                        norm.append((p0, blk[p0:p0 + 2]))
+                changes = norm
             for client in (clients if clients is not None else list(self._clients)):
                 self._socket.queue_send(
                     GeckoPartialStatusBlockProtocolHandler.report_changes(self._socket, changes, parms=client), client)
